@@ -28,12 +28,18 @@ impl Deref for RawOpaquePoolThreadSafe {
     type Target = RawOpaquePool;
 
     fn deref(&self) -> &Self::Target {
+        #[cfg(folo_verif)]
+        crate::__verif::notify_pool_access(&raw const self.0, false);
+
         &self.0
     }
 }
 
 impl DerefMut for RawOpaquePoolThreadSafe {
     fn deref_mut(&mut self) -> &mut Self::Target {
+        #[cfg(folo_verif)]
+        crate::__verif::notify_pool_access(&raw const self.0, true);
+
         &mut self.0
     }
 }
